@@ -39,22 +39,28 @@ type vC09Mon struct {
 	start time.Time
 	errs  []bool
 	pubs  []vC09Pub
+	wall  bool // attempt times on the wall clock (ping) or the monotonic one (informer)
 }
 
-func (m *vC09Mon) SetClient(*rpc.Client)                           {}
-func (m *vC09Mon) Shutdown(context.Context) error                  { return nil }
-func (m *vC09Mon) LogMetric(context.Context, *api.Metric) error    { return nil }
+func (m *vC09Mon) SetClient(*rpc.Client)                               {}
+func (m *vC09Mon) Shutdown(context.Context) error                      { return nil }
+func (m *vC09Mon) LogMetric(context.Context, *api.Metric) error        { return nil }
 func (m *vC09Mon) LatestMetrics(context.Context, string) []*api.Metric { return nil }
-func (m *vC09Mon) MetricNames(context.Context) []string            { return nil }
-func (m *vC09Mon) Alerts() <-chan *api.Alert                       { return nil }
+func (m *vC09Mon) MetricNames(context.Context) []string                { return nil }
+func (m *vC09Mon) Alerts() <-chan *api.Alert                           { return nil }
 func (m *vC09Mon) PublishMetric(_ context.Context, mt *api.Metric) error {
 	m.mu.Lock()
 	defer m.mu.Unlock()
 	k := len(m.pubs)
 	fail := k < len(m.errs) && m.errs[k]
-	// t on the wall clock, like Expire (api.Metric.Expired compares Expire with the wall clock): time.Since would use the
-	// monotonic reading, and a wall clock that is being slewed then makes e-t exceed the TTL asked for by a hair
-	m.pubs = append(m.pubs, vC09Pub{t: time.Now().UnixNano() - m.start.UnixNano(), e: mt.Expire - m.start.UnixNano(), err: fail})
+	// ping (wall): t on the wall clock, like Expire (api.Metric.Expired compares Expire with the wall clock): time.Since would use the
+	// monotonic reading, and a wall clock that is being slewed then makes e-t exceed the TTL asked for by a hair.
+	// informer: its schedule clause compares timer intervals, which run on the monotonic clock, so t stays monotonic there
+	t := int64(time.Since(m.start))
+	if m.wall {
+		t = time.Now().UnixNano() - m.start.UnixNano()
+	}
+	m.pubs = append(m.pubs, vC09Pub{t: t, e: mt.Expire - m.start.UnixNano(), err: fail})
 	if fail {
 		return errors.New("scripted publish error")
 	}
@@ -74,7 +80,7 @@ func (i *vC09Informer) GetMetric(context.Context) *api.Metric {
 
 // returns the publications and the instant (ns since the start) at which the observation stopped
 func vC09Measure(c vC09Case) ([]vC09Pub, int64) {
-	mon := &vC09Mon{start: time.Now(), errs: c.Errs}
+	mon := &vC09Mon{start: time.Now(), errs: c.Errs, wall: c.Kind == "ping"}
 	vPeerUniverse(2)
 	cl := &Cluster{id: vPeers[0], monitor: mon, config: &Config{MonitorPingInterval: time.Duration(c.Ms) * time.Millisecond}}
 	ctx, cancel := context.WithTimeout(context.Background(), time.Duration(c.DurMs)*time.Millisecond)
@@ -91,7 +97,10 @@ func vC09Measure(c vC09Case) ([]vC09Pub, int64) {
 	<-done
 	mon.mu.Lock()
 	defer mon.mu.Unlock()
-	return append([]vC09Pub{}, mon.pubs...), time.Now().UnixNano() - mon.start.UnixNano()
+	if mon.wall {
+		return append([]vC09Pub{}, mon.pubs...), time.Now().UnixNano() - mon.start.UnixNano()
+	}
+	return append([]vC09Pub{}, mon.pubs...), int64(time.Since(mon.start))
 }
 
 func vC09ChainOK(p []vC09Pub) bool {
